@@ -22,6 +22,7 @@
     c07 op <op> <l> <r>        → ok <t> | rej     (`TcRules.binopReal`)
     c07 opdoc <op> <l> <r>     → ok | rej         (documented rule `Typing.binopTy`)
     c07 neg <t> / c07 not <t>  → ok <t> | rej
+    c07 assign <0|1> <local|constant|context> → ok | rej   (`TcRules.assignAccepts`; 1 = compound)
     c07 match <v:arity,…> <arm,…>   → ok | err <kind> ; doc ok | doc err <kind>
         arm ::= _[g] | NAME:n[g] | NAME:b<k>[:dup][g]   (NAME = some|none|K<i>)
     c07 unify <sexp>           → same output format as the hook
@@ -452,6 +453,12 @@ def handle (args : List String) : String :=
         (if compat r.toTy (.int .u8) then "ok" else "rej")
       else (match binopTy op l.toTy r.toTy with | some _ => "ok" | none => "rej")
     | _, _, _ => "bad-op"
+  | ["assign", c, k] =>
+    let kind : Option TcRules.VKind := match k with
+      | "local" => some .local | "constant" => some .constant | "context" => some .context | _ => none
+    match kind with
+    | some kind => if TcRules.assignAccepts (c == "1") kind then "ok" else "rej"
+    | none => "bad-op"
   | ["neg", t] => match parseOTy t with
     | some t => showRes (TcRules.negateReal t) | none => "bad-op"
   | ["not", t] => match parseOTy t with
